@@ -36,9 +36,9 @@ def canonClass (qs : List (Bytes × Bytes)) (sel : List (Bytes × Bytes)) (allHs
   else if signed.eraseDups ≠ signed then "sigv4-signed-list-duplicate"
   else if signed.any (fun n => lower n ≠ n) then "sigv4-signed-name-uppercase"
   else if signed.any (fun n => (allHs.filter fun p => p.1 = n).length = 0) then "sigv4-absent-signed-header"
+  else if SigV4Spec.sortPairs enc ≠ sortByFirst enc then "sigv4-dup-query-unsorted"
   else if signed.any (fun n => (allHs.filter fun p => p.1 = n).length ≥ 2) then "sigv4-repeated-header"
   else if sel.any (fun p => hasInnerRun p.2) then "sigv4-inner-whitespace"
-  else if SigV4Spec.sortPairs enc ≠ sortByFirst enc then "sigv4-dup-query-unsorted"
   else "sigv4-canonical-other"
 
 /-! ### component `sigv4` -/
@@ -221,10 +221,10 @@ def e2eClass (w : SigV4Spec.Wire) : String :=
   let shape (signed : List Bytes) (credDate dateHdr : Bytes) : String :=
     if credDate ≠ dateHdr.take 8 then "sigv4-credential-date-ignored"
     else if signed.any (fun n => SigV4Spec.headerVals hs n = []) then "sigv4-absent-signed-header"
-    else if signed.any (fun n => (SigV4Spec.headerVals hs n).length ≥ 2) then "sigv4-repeated-header"
-    else if signed.any (fun n => (SigV4Spec.headerVals hs n).any hasInnerRun) then "sigv4-inner-whitespace"
     else if dupQueryUnsorted (q.filter fun p => p.1 ≠ SigV4Spec.xAmzSignature) then "sigv4-dup-query-unsorted"
     else if (w.method = b!"GET" || w.method = b!"HEAD") && w.body ≠ [] then "sigv4-get-head-body"
+    else if signed.any (fun n => (SigV4Spec.headerVals hs n).length ≥ 2) then "sigv4-repeated-header"
+    else if signed.any (fun n => (SigV4Spec.headerVals hs n).any hasInnerRun) then "sigv4-inner-whitespace"
     else "sigv4-other"
   if w.isForm then
     match SigV4Spec.fieldVals w.form SigV4Spec.fCredential, SigV4Spec.fieldVals w.form SigV4Spec.xAmzDateName with
